@@ -16,11 +16,20 @@ struct St {
   // gate
   int flag = 0; int passed = 0;
   bool single_cond = false;
+  bool trylock_producers = false;
   bool notify_unlocked = false;   // "unlock, then notify": legal usage; the waiter-set oracles need the mutex and are skipped
 };
 St *S;
 
-void lock_m() {
+void lock_m(bool by_trylock = false) {
+  if (by_trylock) {
+    // legal usage: poll with trylock (a free mutex must be obtainable this way also while somebody waits on a condition with it)
+    for (;;) {
+      if (HX_API("p_mutex_trylock", 0, true, p_mutex_trylock(S->m))) break;
+      HX_API_V("p_uthread_yield", 0, false, p_uthread_yield());
+    }
+    probe("cond.mutex_taken_by_trylock");
+  } else
   if (!HX_API("p_mutex_lock", 0, false, p_mutex_lock(S->m))) violate("lock_returned_false", "p_mutex_lock", "p_mutex_lock returned FALSE");
   if (++S->holders > 1) violate("mutual_exclusion", "mutex", "two tasks inside the mutex");
 }
@@ -68,7 +77,7 @@ void broadcast_c(PCondVariable *c, int cnum, bool locked = true) {
 void producer(int id, int n) {
   for (int k = 0; k < n; k++) {
     long item = id * 1000 + k + 1;
-    lock_m();
+    lock_m(S->trylock_producers);
     for (;;) {
       SIM_READ(S->count);
       if (S->count < S->cap) break;
@@ -120,6 +129,7 @@ void root() {
   int tier = cfg().tier;
   uint32_t mode = gen(4);
   S->notify_unlocked = gen(3) == 0;
+  S->trylock_producers = gen(4) == 0;
   if (mode <= 1) {
     // bounded buffer
     int np = (int)gen_range(1, tier ? 4 : 3), nc = (int)gen_range(1, tier ? 4 : 3);
